@@ -85,6 +85,7 @@ func doRoute(vm *otto.Otto, route, src string) ox.Result {
 
 // execSource runs one source text through all routes.
 func (s *sourceRig) execSource(r *rc, key, src string) {
+	r.Describe(fmt.Sprintf("source %q through %s", src, strings.Join(routes, ", ")))
 	r.Begin(key)
 	parsed := false
 	var outs [6]string
@@ -102,7 +103,7 @@ func (s *sourceRig) execSource(r *rc, key, src string) {
 		if !res.Panicked && res.Err == nil {
 			// the returned Value must be usable (Export is not applied here: a
 			// three-token program such as `a = this` returns a cyclic object, and
-			// Export of a cyclic object is the fatal case owned by goapi-iso)
+			// Export of a cyclic object is the fatal case the goapi-value family owns)
 			acc := ox.Guard(func() (otto.Value, error) {
 				_ = res.Value.String()
 				_, _ = res.Value.ToString()
@@ -125,7 +126,7 @@ func (s *sourceRig) execSource(r *rc, key, src string) {
 	r.EvalN(int64(len(routes)), nt)
 	o := strings.Join(outs[:], "|")
 	r.Outcome(o)
-	if parsed && r.WantSample() {
+	if parsed && r.WantSample() && sparse(key, 211) {
 		r.Sample(fmt.Sprintf("%q => %s", src, o))
 	}
 }
